@@ -820,6 +820,7 @@ class exists_elim(Method):
 
     def apply(self, state: ProofState, id, data, prevs):
         assert len(prevs) == 1, "exists_elim"
+        assert state.get_proof_item(id).rule == "sorry", "exists_elim: id is not a gap"
 
         # Parse the list of variable names
         with context.fresh_context(vars=state.get_vars(id)):
